@@ -101,11 +101,18 @@ impl CounterCollection {
 }
 
 // @cell props=C05 tier=quick kind=core timeout=900 mem=10 cls=N
-// @desc set_input_counter + get_input_count: the registered closure is applied to the given input, only for its own kind
+// @desc set_input_counter + get_input_count: the registered closure is applied to the given input, only for its own kind;
+// @desc an inherited constant counter of the same kind is replaced (no stale element shifts the per-sample figures)
 #[kani::proof]
 #[kani::unwind(6)]
 fn c05_input_counter_roundtrip() {
-    let mut coll = CounterSet::default().to_collection();
+    // a constant counter of the same kind may have been inherited: the per-input counter replaces it
+    let mut set = CounterSet::default();
+    let had_const: bool = kani::any();
+    if had_const {
+        set.insert(ItemsCount::new(kani::any::<u64>()));
+    }
+    let mut coll = set.to_collection();
     coll.set_input_counter(|x: &u16| ItemsCount::new(*x as u64));
     let v: u16 = kani::any();
     let got = unsafe { coll.get_input_count(KnownCounterKind::Items, &v) };
@@ -113,6 +120,13 @@ fn c05_input_counter_roundtrip() {
     assert!(unsafe { coll.get_input_count(KnownCounterKind::Bytes, &v) }.is_none());
     assert!(coll.uses_input_counts(KnownCounterKind::Items));
     assert!(!coll.uses_input_counts(KnownCounterKind::Chars));
-    kani::cover!(v == 7);
+    // no stale per-sample figure: sample i's count will be element i
+    assert!(coll.counts(KnownCounterKind::Items).is_empty());
+    coll.push_counter(AnyCounter::known(KnownCounterKind::Items, 5));
+    assert!(coll.counts(KnownCounterKind::Items).len() == 1 && coll.counts(KnownCounterKind::Items)[0] == 5);
+    // tuning discards the per-input figures of earlier rounds, constant counters of other kinds stay
+    coll.clear_input_counts();
+    assert!(coll.counts(KnownCounterKind::Items).is_empty());
+    kani::cover!(v == 7 && had_const);
     std::mem::forget(coll);
 }
